@@ -118,6 +118,32 @@ def explore(ctx, depth):
             ctx.fail({'text': case.text, 'clause': 'is_monophonic'}, 'is_monophonic is not: one **kern spine, no chord, at least one note or rest', impl=g, expected=want)
 
 
+    long_listing(ctx)
+
+
+def long_listing(ctx):
+    """a long score (more lines than twice the recursion limit): every cell's token exactly once, in order; comments query; frequencies sum"""
+    import gen
+    import kernpy as kp
+    from kernpy.core.tokens import TokenCategory as TC
+    text, rows = gen.long_score(1)
+    text = '!!!COM: X\n' + text + '!!!OTL: Y\n'
+    def run():
+        d = kp.loads(text)[0]
+        enc = [t.encoding for t in d.get_all_tokens()]
+        notes = [t.encoding for t in d.get_all_tokens(filter_by_categories=[TC.NOTE_REST])]
+        return {'n': len(enc), 'head': enc[:6], 'tail': enc[-4:], 'notes_ok': notes == [r[0] for r in rows if r[0][0] == '4'], 'n_notes': len(notes),
+                'freq_sum': sum(v['occurrences'] if isinstance(v, dict) else v for v in d.frequencies().values()), 'comments': d.get_metacomments()}
+    got = call(run)
+    cells = [c for r in rows for c in r]
+    want = {'ok': {'n': len(cells) + 2, 'head': ['!!!COM: X', '**kern', '*clefG2', '*M4/4', '=', cells[4]], 'tail': [cells[-3], '==', '*-', '!!!OTL: Y'],
+                   'notes_ok': True, 'n_notes': sum(1 for c in cells if c[0] == '4'), 'freq_sum': len(cells) + 2, 'comments': ['!!!COM: X', '!!!OTL: Y']}}
+    ctx.seen({'clause': 'long score listing', 'rows': len(rows)}, True)
+    if got != want:
+        ctx.fail({'clause': 'long score listing', 'rows': len(rows), 'text_head': text[:80]},
+                 'the listing of a long score is not every cell once in order (or the derived queries disagree)', impl=got, expected=want['ok'])
+
+
 def replay(ctx, payload):
     explore(ctx, 'quick')
 
